@@ -157,8 +157,9 @@ HEADER = r'''------------------------------ MODULE Channel ---------------------
 (* (goes away); sfaults = the outcome of the successive send calls ("ok",       *)
 (* "disc" = a disconnect errno, "hard" = an errno reported to the caller);      *)
 (* writes, interim, lookahead, sendbytes, hwm, sndbuf, room.                    *)
-(* Not modelled: recv faults, poll()-based readwrite, file-wrapper buffers,     *)
-(* buffer overflow to disk, errors inside send_continue's flush.                *)
+(* rfaults likewise for recv ("eof" = end of file).                             *)
+(* Not modelled: file-wrapper buffers, buffer overflow to disk, errors inside   *)
+(* send_continue's flush, POLLHUP / POLLERR of poll().                          *)
 (* This file is generated by tools/gen_channel.py (the copies of the flush      *)
 (* loop and of the watermark wait) and then translated by pcal.                 *)
 EXTENDS Integers, Sequences, FiniteSets, TLC
@@ -213,7 +214,7 @@ variables
   trig = 0, taskq = 0, accepted = FALSE, inMap = FALSE, sockOpen = FALSE,
   backlog = FALSE, inbox = <<>>, room = cfg.room, wire = <<>>, nclose = 0, blocked = 0,
   peerGone = FALSE,            \* the client has gone away: sends fail with EPIPE, recv reports end of file
-  sfaults = cfg.sfaults,
+  sfaults = cfg.sfaults, rfaults = cfg.rfaults,
   (* ---- history (not read by the modelled code) ---- *)
   produced = <<>>, started = <<>>, running = 0, decided = FALSE, execAfterDecision = FALSE, tornBy = <<>>, crashed = {},
   maxTotal = 0;
@@ -230,7 +231,7 @@ define {
   Concat(seq, i) == IF i > Len(seq) THEN <<>> ELSE RespOf(seq[i].rid) \o Concat(seq, i + 1)
   \* (a scripted outcome pending for the next send makes the socket report writable, like a spurious readiness)
   CanSend == room = Unlimited \/ room > 0 \/ peerGone \/ sfaults # <<>>
-  SockReadable == inbox # <<>> \/ peerGone
+  SockReadable == inbox # <<>> \/ peerGone \/ rfaults # <<>>
   (* C04: what reaches the client is what was produced, in that order, nothing twice, nothing dropped in between *)
   WireIsPrefix == IsBytePrefix(wire, produced)
   ResponsesInOrder == IsPrefix(Finals(produced), Concat(ReqSeq, 1))
@@ -325,10 +326,15 @@ io_read:
 handle_read_event_rd_connected:
       skip;
 recv_recv_sock:
-      if (inbox = <<>>) {
-        \* end of file: wasyncore.dispatcher.recv tears the channel down, then handle_read notes the disconnect
+      if (rfaults # <<>> /\ Head(rfaults) = "hard") {
+        \* an errno that wasyncore re-raises: handle_read logs it and tears the channel down
+        rfaults := Tail(rfaults); closeRet := "recvx"; goto handle_close_acq_outbuf_lock;
+      } else if ((rfaults # <<>> /\ Head(rfaults) \in {"disc", "eof"}) \/ inbox = <<>>) {
+        \* a disconnect errno or end of file: wasyncore.dispatcher.recv tears the channel down and returns
+        \* nothing, then handle_read notes the disconnect
+        rfaults := IF rfaults # <<>> THEN Tail(rfaults) ELSE rfaults;
         closeRet := "recv"; goto handle_close_acq_outbuf_lock;
-      } else { data := Head(inbox); inbox := Tail(inbox); };
+      } else { data := Head(inbox); inbox := Tail(inbox); rfaults := IF rfaults # <<>> THEN Tail(rfaults) ELSE rfaults; };
 received_acq_requests_lock:
       await reqLock = "free"; reqLock := "io";
 received_rd_will_close:
@@ -427,6 +433,7 @@ io_close_ret:
         if (closeRet = "io") { closeRet := ""; goto io_fs_after; }
         else if (closeRet = "scio") { closeRet := ""; goto sc_after_io; }
         else if (closeRet = "recv") { closeRet := ""; goto handle_read_wr_connected; }
+        else if (closeRet = "recvx") { closeRet := ""; goto io_write; }
         else { closeRet := ""; };
       };
     };
